@@ -296,6 +296,45 @@ def _std_case(case):
 
 
 # ------------------------------------------------------------------ dimension-adaptive driver (scripted surplus ranking)
+def _dimadapt_budget_stop(c, history, budget, g2, f2, key):
+    from sparseSpACE.DimAdaptiveCombi import DimAdaptiveCombi
+    from sparseSpACE.GridOperation import Integration
+    from sparseSpACE.Function import CustomFunction
+    from sparseSpACE.Grid import TrapezoidalGrid
+    d = c["d"]
+    a, b = np.zeros(d), np.ones(d)
+    comps, n = FUNCS[c["func"]]
+    grid3 = TrapezoidalGrid(a, b, boundary=c["boundary"])
+    op3 = Integration(CustomFunction(comps, output_length=n), grid=grid3, dim=d, reference_solution=np.full(n, 0.123456789))
+    combi3 = DimAdaptiveCombi(a, b, operation=op3)
+    st3 = {"pointer": 0}
+
+    def surplus3(component_grid, integral_dict):
+        k = st3["pointer"]
+        return 1.0 if k < len(history) and tuple(int(x) for x in component_grid.levelvector) == history[k] else 0.0
+    real_count3 = combi3.get_total_num_points
+
+    def count3(*args, **kw):
+        if kw.get("distinct_function_evals"):
+            st3["pointer"] += 1
+            if st3["pointer"] > len(history) + 2:
+                raise core.HarnessError("run with max_number_of_points=%d did not stop within %d rounds" % (budget, len(history) + 2))
+        return real_count3(*args, **kw)
+    combi3.calculate_surplus = surplus3
+    combi3.get_total_num_points = count3
+    scheme3, err3, res3, errors3, np3 = combi3.perform_combi(c["lmin"], 2, -1.0, max_number_of_points=budget)
+    res3 = np.array(res3, dtype=float)
+    tot3, mag3 = np.zeros(n), 0.0
+    for comp in scheme3:
+        v = np.asarray(g2.integrate(f2, comp.levelvector, a, b), dtype=float)
+        tot3 += comp.coefficient * v
+        mag3 += abs(comp.coefficient) * float(np.max(np.abs(v)))
+    if not _close(res3, tot3, max(mag3, 1.0)):
+        return [fail("point_budget_stop", "run ended by max_number_of_points=%d: reported %r, fresh component sum of the reported scheme %r; scheme %r"
+                     % (budget, res3, tot3, [(tuple(x.levelvector), x.coefficient) for x in scheme3]), key)]
+    return []
+
+
 def _dimadapt_case(case):
     from sparseSpACE.DimAdaptiveCombi import DimAdaptiveCombi
     from sparseSpACE.GridOperation import Integration
@@ -318,23 +357,37 @@ def _dimadapt_case(case):
             return 1.0
         return 0.0
     real_count = combi.get_total_num_points
+    real_counts = []
+
+    class _Exhausted(Exception):
+        pass
 
     def count(*args, **kw):
+        if kw.get("distinct_function_evals"):
+            real_counts.append(real_count(*args, **kw))
+            if len(real_counts) > len(history):
+                # the script ends the run by reporting a huge point count through get_total_num_points(); a driver that decides its
+                # point budget some other way goes on refining: the scripted stage gives no verdict then, the real budget below does
+                raise _Exhausted()
         if state["pointer"] >= len(history):
             return 10 ** 12
         if kw.get("distinct_function_evals"):
             state["pointer"] += 1
-            return real_count(*args, **kw)
+            return real_counts[-1]
         return real_count(*args, **kw)
     combi.calculate_surplus = surplus
     combi.get_total_num_points = count
-    scheme, err, res, errors, num_points = combi.perform_combi(c["lmin"], 2, -1.0, max_number_of_points=10 ** 9)
-    if state["pointer"] != len(history):
-        raise core.HarnessError("dimension-adaptive loop executed %d of %d scripted steps" % (state["pointer"], len(history)))
-    res = np.array(res, dtype=float)
     fails = []
     g2 = TrapezoidalGrid(a, b, boundary=c["boundary"])
     f2 = CustomFunction(comps, output_length=n)
+    try:
+        scheme, err, res, errors, num_points = combi.perform_combi(c["lmin"], 2, -1.0, max_number_of_points=10 ** 9)
+    except _Exhausted:
+        fails += _dimadapt_budget_stop(c, history, int(real_counts[-1]) - 1, g2, f2, key)
+        return {"failures": fails, "canon": None, "nontrivial": True, "outcome": ("scripted stage without verdict", len(fails)), "events": []}
+    if state["pointer"] != len(history):
+        raise core.HarnessError("dimension-adaptive loop executed %d of %d scripted steps" % (state["pointer"], len(history)))
+    res = np.array(res, dtype=float)
     tot = np.zeros(n)
     mag = 0.0
     for comp in scheme:
@@ -346,6 +399,10 @@ def _dimadapt_case(case):
         fails.append(fail("result_equals_fresh_component_sum", "reported %r, fresh %r; scheme %r" % (res, tot, [(tuple(x.levelvector), x.coefficient) for x in scheme]), key))
     if not _close(np.asarray(err, dtype=float), np.abs(res - 0.123456789), mag):
         fails.append(fail("reported_difference", "reported difference %r, |result-reference| %r" % (err, np.abs(res - 0.123456789)), key))
+    # the same script ended by a REAL point budget (the largest budget that is exceeded by the last-but-one scripted round): a run
+    # stopped by max_number_of_points is a stop like any other - the reported value must be the combination of the reported scheme
+    if len(num_points) >= 2 and num_points[-1] > num_points[-2]:
+        fails += _dimadapt_budget_stop(c, history, int(num_points[-1]) - 1, g2, f2, key)
     cs = combi.combischeme
     out = {"failures": fails, "canon": (tuple(sorted(cs.old_index_set)), tuple(sorted(cs.active_index_set))),
            "nontrivial": len(history) > 0, "outcome": tuple(round(float(x), 10) for x in res)}
